@@ -1352,8 +1352,13 @@ def gen_csvcells_case(rng, idx):
         cell, k, places = num_cell(rng, units, scale, fancy)
         if use_cd:
             if rng.random() < 0.5:
-                row["credit"], row["debit"] = cell, (num_cell(rng, rng.randint(1, 999), scale, False)[0] if rng.random() < 0.15 else "")
+                du = rng.randint(1, 999)
+                dcell, dk, dplaces = num_cell(rng, du, scale, False) if rng.random() < 0.15 else ("", 0, 0)
+                row["credit"], row["debit"] = cell, dcell
                 exp["amount"] = (signed(units, scale, k), places)
+                if units == 0 and dcell != "":
+                    # both cells filled and the credit cell holds a zero: the row is a debit (fix 096780e, finding F41)
+                    exp["amount"] = (-signed(du, scale, dk), dplaces)
             else:
                 row["credit"], row["debit"] = "", cell
                 exp["amount"] = (-signed(units, scale, k), places)
